@@ -1,0 +1,15 @@
+//go:build verif
+// +build verif
+
+package tars
+
+// Verification hook (build tag verif only): run the endpoint manager's registry refresh of a proxy now (the real
+// doFresh / refreshEndpoints, normally driven by a ticker): endpoints the registrar no longer lists lose their adapter
+// (AdapterProxy.Close) whatever is outstanding on it.
+func VerifC08Refresh(s *ServantProxy) error {
+	em, ok := s.manager.(*endpointManager)
+	if !ok {
+		return nil
+	}
+	return em.doFresh()
+}
